@@ -19,14 +19,39 @@ Long63 == [i \in 1..63 |-> 97 + (i % 3)]
 
 \* an asterisk label that is not the leftmost one is an ordinary label (RFC
 \* 4034 3.1.3 discounts only a leftmost "*"): a.*.ex has Labels = 3, *.*.ex 2
+\* ... and only the one-octet label "*" is the wildcard label (RFC 4592 2.1.1):
+\* *a.ex and **.ex are ordinary two-label names
+StarA == <<42, 97>>   StarStar == <<42, 42>>   AStar == <<97, 42>>
 Owners ==
-  {<<ex>>, <<a, ex>>, <<Star, ex>>, <<Star, a, ex>>, <<A, eX>>, <<a, Star, ex>>, <<Star, Star, ex>>}
-  \cup (IF Thorough THEN {<<>>, <<Star>>, <<Long63, B, ex>>, <<a, Star, b, Star, ex>>} ELSE {})
+  {<<ex>>, <<a, ex>>, <<Star, ex>>, <<Star, a, ex>>, <<A, eX>>, <<a, Star, ex>>, <<Star, Star, ex>>,
+   <<StarA, ex>>, <<StarStar, a, ex>>}
+  \cup (IF Thorough THEN {<<>>, <<Star>>, <<Long63, B, ex>>, <<a, Star, b, Star, ex>>,
+                          <<AStar, ex>>, <<StarA>>, <<Star, StarA, ex>>, <<StarA, Star, ex>>} ELSE {})
+
+OwnersSmall == {<<a, ex>>, <<Star, ex>>, <<StarA, ex>>}
 
 Pub(n, m) == [i \in 1..n |-> (i * m + 3) % 256]
+\* one key per algorithm the backend signs with (the octets of the public key
+\* are placeholders: the executor substitutes real keys of that algorithm).
+\* route: how the key pair reached the signer - "direct" (as generated / as
+\* read from the key file) or "bind" (exported to and re-imported from the
+\* BIND private-key format first).  `wide`: combined with every RRset of the
+\* menu and every owner; the others with the RdSmall ones and (quick tier) the
+\* OwnersSmall ones (every transform and alteration all the same).
+RsaPub(m) == <<3, 1, 0, 1>> \o [i \in 1..256 |-> IF i = 1 THEN 200 ELSE (i * m + 3) % 256]
 Keys ==
-  {[k |-> [flags |-> 256, proto |-> 3, alg |-> 15, pub |-> Pub(32, 7)], owner |-> <<ex>>],
-   [k |-> [flags |-> 257, proto |-> 3, alg |-> 13, pub |-> Pub(64, 251)], owner |-> <<Ex>>]}
+  {[k |-> [flags |-> 256, proto |-> 3, alg |-> 15, pub |-> Pub(32, 7)], owner |-> <<ex>>, route |-> "direct", wide |-> TRUE],
+   [k |-> [flags |-> 257, proto |-> 3, alg |-> 13, pub |-> Pub(64, 251)], owner |-> <<Ex>>, route |-> "bind", wide |-> Thorough],
+   [k |-> [flags |-> 256, proto |-> 3, alg |-> 8, pub |-> RsaPub(7)], owner |-> <<ex>>, route |-> "direct", wide |-> FALSE],
+   [k |-> [flags |-> 257, proto |-> 3, alg |-> 10, pub |-> RsaPub(11)], owner |-> <<Ex>>, route |-> "bind", wide |-> FALSE],
+   [k |-> [flags |-> 256, proto |-> 3, alg |-> 14, pub |-> Pub(96, 13)], owner |-> <<ex>>, route |-> "direct", wide |-> FALSE]}
+  \cup (IF Thorough THEN
+    {[k |-> [flags |-> 257, proto |-> 3, alg |-> 15, pub |-> Pub(32, 7)], owner |-> <<Ex>>, route |-> "bind", wide |-> FALSE],
+     [k |-> [flags |-> 256, proto |-> 3, alg |-> 13, pub |-> Pub(64, 251)], owner |-> <<ex>>, route |-> "direct", wide |-> FALSE],
+     [k |-> [flags |-> 257, proto |-> 3, alg |-> 8, pub |-> RsaPub(7)], owner |-> <<Ex>>, route |-> "bind", wide |-> FALSE],
+     [k |-> [flags |-> 256, proto |-> 3, alg |-> 10, pub |-> RsaPub(11)], owner |-> <<ex>>, route |-> "direct", wide |-> FALSE],
+     [k |-> [flags |-> 257, proto |-> 3, alg |-> 14, pub |-> Pub(96, 13)], owner |-> <<Ex>>, route |-> "bind", wide |-> FALSE]}
+    ELSE {})
 
 Times == IF Thorough THEN {[inc |-> <<0, 0, 0, 0>>, exp |-> <<0, 0, 0, 100>>], [inc |-> <<255, 255, 255, 0>>, exp |-> <<0, 0, 1, 0>>]}
          ELSE {[inc |-> <<0, 0, 0, 0>>, exp |-> <<0, 0, 0, 100>>]}
@@ -63,30 +88,35 @@ RdSets == {
   [t |-> 65280, rds |-> << <<Raw(<<2>>)>>, <<Raw(<<1, 1>>)>> >>],
   [t |-> 65280, rds |-> << <<>>, <<Raw(<<0>>)>> >>] }
 
+\* the RRsets every key signs: several A, MX (names in the RDATA), NSEC
+RdSmall == {rs \in RdSets : rs.t \in {15, 47} \/ (rs.t = 1 /\ Len(rs.rds) = 3)}
+
 MkRrs(owner, rs, ttl) ==
   [i \in 1..Len(rs.rds) |-> [owner |-> owner, type |-> rs.t, class |-> 1, ttl |-> ttl, rd |-> rs.rds[i]]]
 
 --------------------------------------------------------------------------
-VARIABLES key, keyOwner, orig, sig0,     \* what was signed, and the signer's RRSIG fields
+VARIABLES key, keyOwner, kroute, orig, sig0,   \* what was signed, with which key, and the signer's RRSIG fields
           cur, sig,                      \* what the validator sees
+          vkalg,                         \* the Algorithm field of the DNSKEY the validator uses
           sigflip, keyflip, compress,    \* signature / key bit flipped; passed through a compressed message
           conv,                          \* representation conversion applied to RRs, RRSIG and key
           nops, altered, last
-vars == <<key, keyOwner, orig, sig0, cur, sig, sigflip, keyflip, compress, conv, nops, altered, last>>
+vars == <<key, keyOwner, kroute, orig, sig0, cur, sig, vkalg, sigflip, keyflip, compress, conv, nops, altered, last>>
 
 Init ==
   \E o \in Owners, rs \in RdSets, kk \in Keys, tm \in Times, ttl \in Ttls :
-     /\ key = kk.k /\ keyOwner = kk.owner
+     /\ kk.wide \/ (rs \in RdSmall /\ (Thorough \/ o \in OwnersSmall))
+     /\ key = kk.k /\ keyOwner = kk.owner /\ kroute = kk.route /\ vkalg = kk.k.alg
      /\ orig = MkRrs(o, rs, ttl)
      /\ sig0 = SignerFields(kk.k, kk.owner, orig, tm.inc, tm.exp)
      /\ cur = orig /\ sig = sig0
      /\ sigflip = FALSE /\ keyflip = FALSE /\ compress = FALSE /\ conv = "none"
      /\ nops = 0 /\ altered = FALSE /\ last = "Sign"
 
-Same == UNCHANGED <<key, keyOwner, orig, sig0>>
+Same == UNCHANGED <<key, keyOwner, kroute, orig, sig0>>
 CanT == ~altered /\ nops < MaxT
 T(name) == /\ nops' = nops + 1 /\ last' = name /\ Same
-           /\ UNCHANGED <<altered, sigflip, keyflip>>
+           /\ UNCHANGED <<altered, sigflip, keyflip, vkalg>>
 
 (* resolver-side transforms *)
 Permute ==
@@ -126,14 +156,20 @@ Compress ==
 \* The values change representation, not content: RRs and RRSIG are read out
 \* of a message as parsed records and flattened into owned ones
 \* ("flatten"), or converted between octets types ("octets": OctetsFrom /
-\* octets_into of records, Rrsig, Dnskey).  Every field stays what it was.
+\* octets_into of records, Rrsig, Dnskey), or parsed and converted as the
+\* specific record data types ("typed": Dnskey / Ds / Nsec / Rrsig /
+\* ProtoRrsig with their own ParseRecordData, OctetsFrom, FlattenInto,
+\* convert), or the owner names arrive as a relative name chained to an
+\* origin ("chain": ToRelativeName::chain / chain_root).  Every field stays
+\* what it was.
 Convert ==
   /\ CanT /\ conv = "none"
-  /\ conv' \in {"flatten", "octets"}
+  /\ conv' \in {"flatten", "octets", "typed", "chain"}
   /\ UNCHANGED <<cur, sig, compress>> /\ T("Convert")
 
 (* alterations: exactly one, then the behaviour ends *)
-CanA == ~altered /\ nops <= AltDepth
+\* (quick tier: not on top of the "typed" / "chain" representations)
+CanA == ~altered /\ nops <= AltDepth /\ (Thorough \/ conv \notin {"typed", "chain"})
 Alt(name) == /\ altered' = TRUE /\ last' = name /\ nops' = nops + 1 /\ Same
              /\ UNCHANGED <<compress, conv>>
 
@@ -142,21 +178,22 @@ AltRdata ==
   /\ \E i \in {1, Len(cur)} :
         /\ cur' = [cur EXCEPT ![i].rd = AltRd(cur[i].type, @)]
         /\ NoDuplicates(cur')
-  /\ UNCHANGED <<sig, sigflip, keyflip>> /\ Alt("AltRdata")
+  /\ UNCHANGED <<sig, sigflip, keyflip, vkalg>> /\ Alt("AltRdata")
 
 AltOwner ==       \* a label that is covered by the Labels field
   /\ CanA /\ sig.labels >= 1 /\ Len(cur[1].owner) >= 1
   /\ cur' = [i \in 1..Len(cur) |-> [cur[i] EXCEPT !.owner = AltNameAt(@, Len(@))]]
-  /\ UNCHANGED <<sig, sigflip, keyflip>> /\ Alt("AltOwner")
+  /\ UNCHANGED <<sig, sigflip, keyflip, vkalg>> /\ Alt("AltOwner")
 
 AltClass ==
   /\ CanA
   /\ cur' = [i \in 1..Len(cur) |-> [cur[i] EXCEPT !.class = 3]]
-  /\ UNCHANGED <<sig, sigflip, keyflip>> /\ Alt("AltClass")
+  /\ UNCHANGED <<sig, sigflip, keyflip, vkalg>> /\ Alt("AltClass")
 
 AltSigField ==
   /\ CanA
   /\ \/ sig' = [sig EXCEPT !.tc = IF @ = 1 THEN 28 ELSE 1] /\ last' = "AltTypeCovered"
+     \/ sig' = [sig EXCEPT !.alg = SiblingAlg(@)] /\ last' = "AltAlgorithm"
      \/ sig' = [sig EXCEPT !.labels = @ + 1] /\ last' = "AltLabels"
      \/ sig.labels >= 1 /\ sig' = [sig EXCEPT !.labels = @ - 1] /\ last' = "AltLabels"
      \/ sig' = [sig EXCEPT !.ottl = IF @ = 2147483647 THEN 0 ELSE @ + 1] /\ last' = "AltOrigTtl"
@@ -166,31 +203,36 @@ AltSigField ==
      \/ sig' = [sig EXCEPT !.signer = IF @ = <<>> THEN <<<<113>>>> ELSE AltNameAt(@, 1)] /\ last' = "AltSigner"
      \/ sig' = [sig EXCEPT !.signer = <<<<113>>>> \o @] /\ last' = "AltSigner"
   /\ altered' = TRUE /\ nops' = nops + 1 /\ Same
-  /\ UNCHANGED <<cur, sigflip, keyflip, compress, conv>>
+  /\ UNCHANGED <<cur, sigflip, keyflip, vkalg, compress, conv>>
 
 DropRR ==
   /\ CanA /\ Len(cur) >= 2
   /\ \/ cur' = Tail(cur)
      \/ cur' = SubSeq(cur, 1, Len(cur) - 1)
-  /\ UNCHANGED <<sig, sigflip, keyflip>> /\ Alt("DropRR")
+  /\ UNCHANGED <<sig, sigflip, keyflip, vkalg>> /\ Alt("DropRR")
 
 AddRR ==
   /\ CanA
   /\ cur' = Append(cur, [cur[1] EXCEPT !.rd = AltRd(cur[1].type, @)])
   /\ NoDuplicates(cur')
-  /\ UNCHANGED <<sig, sigflip, keyflip>> /\ Alt("AddRR")
+  /\ UNCHANGED <<sig, sigflip, keyflip, vkalg>> /\ Alt("AddRR")
 
 AltSigBit ==
   /\ CanA /\ sigflip' = TRUE
-  /\ UNCHANGED <<cur, sig, keyflip>> /\ Alt("AltSigBit")
+  /\ UNCHANGED <<cur, sig, keyflip, vkalg>> /\ Alt("AltSigBit")
 
 AltKeyBit ==
   /\ CanA /\ keyflip' = TRUE
-  /\ UNCHANGED <<cur, sig, sigflip>> /\ Alt("AltKeyBit")
+  /\ UNCHANGED <<cur, sig, sigflip, vkalg>> /\ Alt("AltKeyBit")
+
+\* the same public key octets published under another algorithm number
+AltKeyAlg ==
+  /\ CanA /\ vkalg' = SiblingAlg(vkalg)
+  /\ UNCHANGED <<cur, sig, sigflip, keyflip>> /\ Alt("AltKeyAlg")
 
 Next == \/ Permute \/ Recase \/ DecTtl \/ ExpandWildcard \/ Compress \/ Convert
         \/ AltRdata \/ AltOwner \/ AltClass \/ AltSigField \/ DropRR \/ AddRR
-        \/ AltSigBit \/ AltKeyBit
+        \/ AltSigBit \/ AltKeyBit \/ AltKeyAlg
 
 Spec == Init /\ [][Next]_vars
 
@@ -199,7 +241,8 @@ Spec == Init /\ [][Next]_vars
 
 Signed == SignerOctets(sig0, orig)                 \* what the signer signs
 SigT == IF sigflip THEN [op |-> "flip", of |-> SignTerm(key, Signed)] ELSE SignTerm(key, Signed)
-KeyT == IF keyflip THEN [op |-> "flip", of |-> key] ELSE key
+VKey == [key EXCEPT !.alg = vkalg]
+KeyT == IF keyflip THEN [op |-> "flip", of |-> VKey] ELSE VKey
 Verifies == Verify(SigT, KeyT, ValidatorOctets(sig, cur))
 
 \* signer transcription, validator transcription and RFC text agree on what
@@ -209,23 +252,24 @@ SignerValidatorAgree ==
   /\ Signed = SignedData(sig0, orig)
   /\ ValidatorOctets(sig0, orig) = SignedData(sig0, orig)
   /\ sig0.labels <= Len(orig[1].owner)              \* RFC 4034 3.1.3
+  /\ sig0.alg = key.alg /\ key.alg \in SignAlgs
 \* the validator transcription is the RFC construction on whatever arrives
 ValidatorIsRfc == NoDuplicates(cur) => ValidatorOctets(sig, cur) = SignedData(sig, cur)
 TransformsPreserveSignedData ==
   ~altered => ValidatorOctets(sig, cur) = Signed /\ Verifies
 AlterationsChangeSignedData ==
-  altered => ~Verifies /\ ((~sigflip /\ ~keyflip) => ValidatorOctets(sig, cur) # Signed)
+  altered => ~Verifies /\ ((~sigflip /\ ~keyflip /\ vkalg = key.alg) => ValidatorOctets(sig, cur) # Signed)
 KeyTagRange == sig0.tag \in 0..65535
 
 --------------------------------------------------------------------------
 (* S->I: every state is a case *)
 Emit == PrintT("CASE " \o ToJson(
-  [in  |-> [kind |-> "rrsig", key |-> key, keyOwner |-> keyOwner,
+  [in  |-> [kind |-> "rrsig", key |-> key, keyOwner |-> keyOwner, kroute |-> kroute, vkalg |-> vkalg,
             inc |-> sig0.inc, exp |-> sig0.exp, orig |-> orig, cur |-> cur, sig |-> sig,
             sig0 |-> sig0, sigflip |-> sigflip, keyflip |-> keyflip, compress |-> compress, conv |-> conv,
             last |-> last],
    exp |-> [sig0 |-> sig0, signer |-> Signed, validator |-> ValidatorOctets(sig, cur),
-            verify |-> Verifies]]))
+            prefix |-> SigPrefix(sig), siglen |-> SigLen(key), verify |-> Verifies]]))
 
 --------------------------------------------------------------------------
 (* Key tags and DS digests: separate enumeration, evaluated in the single  *)
@@ -233,14 +277,44 @@ Emit == PrintT("CASE " \o ToJson(
 KtPubs == {<<>>, <<1>>, <<255, 255>>, <<1, 2, 3>>, <<255, 254, 253, 252>>,
            [i \in 1..64 |-> 255], [i \in 1..65 |-> 255], [i \in 1..132 |-> (i * 37) % 256],
            [i \in 1..260 |-> 255], [i \in 1..259 |-> 250 + (i % 6)]}
-KtKeys == {k \in [flags : {0, 256, 257, 65535}, proto : {3, 255}, alg : {1, 8, 13, 15, 255}, pub : KtPubs] :
+KtKeys == {k \in [flags : {0, 128, 256, 257, 384, 385, 65535}, proto : {3, 255}, alg : {1, 8, 13, 15, 255}, pub : KtPubs] :
              k.alg = 1 => Len(k.pub) >= 3}      \* B.1 is undefined for shorter keys
+\* key sizes: well-formed keys of every algorithm (RSA moduli with every
+\* number of leading zero bits, one- and three-octet exponent lengths) and
+\* RSA keys that are cut short (no size: an error, RFC 3110 2)
+Mod(n, first) == [i \in 1..n |-> IF i = 1 THEN first ELSE (i * 29) % 256]
+KsPubsRsa == {<<1, 3>> \o Mod(64, 2 ^ (k - 1)) : k \in 1..8}
+             \cup {<<3, 1, 0, 1>> \o Mod(128, 255), <<3, 1, 0, 1>> \o Mod(256, 129), <<1, 3, 1>>,
+                   <<0, 1, 0>> \o Mod(256, 1) \o Mod(129, 77), <<4, 1, 0, 0, 1>> \o Mod(512, 255)}
+KsPubsBad == {<<>>, <<0>>, <<0, 1>>, <<3>>, <<3, 1, 0>>, <<3, 1, 0, 1>>, <<0, 1, 0>> \o Mod(256, 1)}
+KsKeys == [flags : {256}, proto : {3}, alg : {5, 7, 8, 10}, pub : KsPubsRsa \cup KsPubsBad]
+          \cup [flags : {257}, proto : {3}, alg : {13}, pub : {Pub(64, 3)}]
+          \cup [flags : {257}, proto : {3}, alg : {14}, pub : {Pub(96, 5)}]
+          \cup [flags : {257}, proto : {3}, alg : {15}, pub : {Pub(32, 9)}]
+          \cup [flags : {257}, proto : {3}, alg : {16}, pub : {Pub(57, 11)}]
+\* RSA public key layout: exponents and moduli with and without leading
+\* zero octets, exponents of 255 / 256 octets (one- / three-octet length)
+RsaEs == {<<3>>, <<1, 0, 1>>, <<0, 0, 1, 0, 1>>, Mod(255, 1), Mod(256, 1), <<0>> \o Mod(256, 255)}
+RsaNs == {Mod(128, 200), <<0, 0>> \o Mod(128, 1), Mod(256, 255), Mod(127, 9), Mod(512, 128)}
 DsOwners == {<<>>, <<ex>>, <<A, eX>>, <<Star, Ex>>}
 First == nops = 0 /\ orig[1].owner = <<ex>> /\ orig[1].type = 6 /\ key.alg = 15
          /\ sig0.inc = <<0, 0, 0, 0>> /\ orig[1].ttl = 3600 /\ keyOwner = <<ex>>
 EmitKeys == First =>
   /\ \A k \in KtKeys : PrintT("CASE " \o ToJson(
-        [in |-> [kind |-> "keytag", key |-> k], exp |-> [tag |-> KeyTag(k)]]))
+        [in |-> [kind |-> "keytag", key |-> k],
+         exp |-> [tag |-> KeyTag(k), flags |-> k.flags, zone |-> IsZoneKey(k.flags),
+                  revoked |-> IsRevoked(k.flags), sep |-> IsSep(k.flags)]]))
+  /\ \A k \in KsKeys : PrintT("CASE " \o ToJson(
+        [in |-> [kind |-> "keysize", key |-> k],
+         exp |-> [size |-> IF KeyWellFormed(k) THEN KeySize(k) ELSE -1],
+         dev |-> [D_key_size_panic |-> [panic |-> TRUE]]]))
+  /\ \A e \in RsaEs : \A n \in RsaNs : \A min \in {128, 256} : PrintT("CASE " \o ToJson(
+        [in |-> [kind |-> "rsa", e |-> e, n |-> n, min |-> min],
+         exp |-> [pub |-> RsaEncode(e, n), e |-> TrimZeros(e), n |-> TrimZeros(n),
+                  ok |-> Len(TrimZeros(n)) >= min]]))
+  /\ \A x \in 0..255 : PrintT("CASE " \o ToJson(
+        [in |-> [kind |-> "alg", alg |-> x, pub |-> <<1, 3>> \o Mod(128, 200)],
+         exp |-> [verifiable |-> x \in VerifyAlgs, signable |-> x \in SignAlgs, claim_sound |-> TRUE]]))
   /\ \A o \in DsOwners : \A kk \in Keys : \A d \in {1, 2, 4} : PrintT("CASE " \o ToJson(
         [in |-> [kind |-> "ds", owner |-> o, key |-> kk.k, dt |-> d,
                  term |-> DsDigest(o, kk.k, d)],
@@ -273,4 +347,14 @@ EmitVectors == First =>
                signature |-> B6Sig, data |-> B6Data],
       exp |-> [data_ok |-> TRUE, verify |-> x = 5]]))
 KeyTagLaws == First => \A k \in KtKeys : KeyTag(k) \in 0..65535
+\* the RSA layout: encoding and splitting are inverse, encoded keys are well
+\* formed, the size of a key is the bit length of its modulus
+KeyLayoutLaws == First =>
+  /\ \A e \in RsaEs : \A n \in RsaNs :
+        LET p == RsaEncode(e, n)
+        IN /\ RsaWellFormed(p) /\ RsaExp(p) = TrimZeros(e) /\ RsaMod(p) = TrimZeros(n)
+           /\ KeySize([alg |-> 8, pub |-> p]) \in (8 * Len(TrimZeros(n)) - 7)..(8 * Len(TrimZeros(n)))
+  /\ \A p \in KsPubsRsa : RsaWellFormed(p) /\ RsaEncode(RsaExp(p), RsaMod(p)) = p
+  /\ \A p \in KsPubsBad : ~RsaWellFormed(p)
+  /\ SignAlgs \subseteq VerifyAlgs /\ \A x \in VerifyAlgs : SiblingAlg(x) # x
 =============================================================================
